@@ -1,4 +1,3 @@
 SPECIFICATION Spec
 CHECK_DEADLOCK FALSE
-CONSTRAINT Track
 POSTCONDITION Post
